@@ -399,7 +399,10 @@ def discharge(ctx, chk, g, with_main=False):
                  (PAR, "split_into_word_count_and_opcode", "Parser", None), ("rspirv::dr::constructs", "generator", "ModuleHeader", False),
                  ("rspirv::binary::assemble", "assemble_into", "Instruction", "Assemble"), ("rspirv::binary::assemble", "assemble_into", "Operand", "Assemble")]
     for mod, name, ty, tr in const_fns:
-        f = ctx.rspirv.fn(mod, name, ty, tr)
+        try:
+            f = ctx.rspirv.fn(mod, name, ty, tr)
+        except Anchor:
+            continue        # the (private) function no longer exists under this name: its audit entry then has no site to discharge
         bad = []
         for n in walk(f["body"]):
             if n[0] == "binary" and n[1] in ("<<", ">>"):
